@@ -136,6 +136,7 @@ pub fn drive(prop: &str, args: &[String]) -> i32 {
     let cfg = pool_cfg(opts.workers);
     let replies = pool::run_all(&cfg, &cases);
 
+    write_digests(&replies);
     let known_list = known::load(&opts.known);
     let mut faults_fired: BTreeMap<String, u64> = BTreeMap::new();
     let mut probes: BTreeMap<String, u64> = BTreeMap::new();
@@ -239,6 +240,21 @@ pub fn drive(prop: &str, args: &[String]) -> i32 {
     } else {
         simkit::EXIT_OK
     }
+}
+
+/// Determinism self-test support: one line per case with a hash of the worker's full reply.
+fn write_digests(replies: &[Reply]) {
+    let Ok(path) = std::env::var("VERIF_DIGEST_OUT") else { return };
+    let mut out = String::new();
+    for (i, r) in replies.iter().enumerate() {
+        let d = match r {
+            Reply::Ok(v) => format!("{:016x}", simkit::fnv(v.to_string().as_bytes())),
+            Reply::Died(_) => "died".to_string(),
+            Reply::Hung => "hung".to_string(),
+        };
+        out.push_str(&format!("{i} {d}\n"));
+    }
+    let _ = std::fs::write(format!("{path}.{}", corpus::FORMAT), out);
 }
 
 fn fault_kinds(case: &Value) -> String {
